@@ -362,3 +362,25 @@ func PanicText(r any) (string, bool) {
 	}
 	return "", false
 }
+
+// ReadURI returns the content of a saved file by its URI.
+func (f *FS) ReadURI(uri string) ([]byte, bool) {
+	f.sh.mu.Lock()
+	defer f.sh.mu.Unlock()
+	b, ok := f.sh.files[uri]
+	return b, ok
+}
+
+// WriteURI creates (or replaces) a file under the given URI.
+func (f *FS) WriteURI(uri string, data []byte) {
+	file := f.New(uri)
+	file.Write(data)
+	file.Save()
+}
+
+// DeleteAll removes every file (the working storage is wiped).
+func (f *FS) DeleteAll() {
+	for uri := range f.Snapshot() {
+		f.Open(uri).Delete()
+	}
+}
